@@ -50,6 +50,9 @@ def make_query(r, shard, filters=True, names=None, strings=None, registry=None, 
     for _ in range(tries):
         g = Q.QGen(r, names=names, strings=strings, registry=registry, filters=filters,
                    max_filter_depth=max_filter_depth, big_ints=big_ints, numbers=numbers)
+        if doc is not None:
+            g.doc = doc
+            g.evalr = ev.Evaluator(registry)
         if doc is not None and r.random() < 0.85:
             ast = g.guided_query(doc, min_segs=max(1, min_segs), max_segs=max_segs, hit_p=hit_p)
         else:
@@ -71,6 +74,20 @@ def make_query(r, shard, filters=True, names=None, strings=None, registry=None, 
             raise HarnessError(f"generator produced an ill-typed query {text!r}: {tc}")
         return plain, text, rd.used
     raise HarnessError("could not generate a query outside the excluded regions")
+
+
+def guided_filter_segment(r, g, base_segs, doc, registry=None, need=None, tries=8):
+    """A segment [?expr] whose expression is guided by the children of a node that the base
+    query really selects (so that the filter is applied to something and can be decisive)."""
+    nodes = ev.Evaluator(registry).query(["q", "$", Q.strip_hints(base_segs)], doc)
+    conts = [v for _, v in nodes if isinstance(v, (dict, list)) and len(v) >= 1]
+    big = [v for v in conts if len(v) >= 2]
+    target = r.choice(big or conts) if (big or conts) else None
+    for _ in range(tries):
+        sel = g.filter_for(target, 0) if target is not None else ["filter", g.logical(1, 2)]
+        if need is None or need in Q.features(["q", "$", [["child", [sel]]]]):
+            return [r.choice(["child", "child", "child", "desc"]) if target is None else "child", [sel]]
+    return None
 
 
 def make_doc(r, tier, names=None, strings=None, falsy_bias=0.25):
